@@ -305,7 +305,7 @@ func runC03(c *Ctx) {
 			c.R.Count(cl)
 			if ir.outcome != "end" || !eqStrs(exp, got) {
 				c.R.Add(vh.Mismatch{Kind: "spec", What: "resume: a stream started at a delivered end label does not yield exactly the remaining transactions",
-					Case: fmt.Sprintf("cfg=%s units=%v resume after tx %d at %s:%d outcome=%s", h.cfg, h.kinds, k, tx.nextFile, tx.next, ir.outcome),
+					Case:  fmt.Sprintf("cfg=%s units=%v resume after tx %d at %s:%d outcome=%s", h.cfg, h.kinds, k, tx.nextFile, tx.next, ir.outcome),
 					Input: eventsHex(a.events), Expected: fmt.Sprintf("%d transactions", len(exp)), Impl: fmt.Sprintf("%d; %s", len(got), firstDiff(exp, got)), InDomain: true})
 				break
 			}
